@@ -228,7 +228,10 @@ def gen_case(rng):
             # an IMF whose samples are all subnormal numbers (amplitude 2**-1040 .. 2**-1023): still a finite sinusoid
             sub = {'subnormal': True}
         return {'kind': 'sin', 'method': gens.pick(rng, ['hilbert', 'nht', 'quad']), 'sr': sr, 'n': n, 'f': float(cyc * sr / n),
-                'A': float(10 ** rng.uniform(-1.5, 1.5)), 'ph0': float(rng.uniform(0, 2 * np.pi)), 'ncol': int(rng.integers(1, 4)), 'c': c,
+                'A': float(10 ** rng.uniform(-1.5, 1.5)),
+                # (starting phases: anywhere, or exactly on a quarter of a cycle - records that start on a zero crossing or an extremum)
+                'ph0': float(rng.uniform(0, 2 * np.pi)) if rng.random() > .15 else float(gens.pick(rng, [0.0, np.pi / 2, np.pi, 3 * np.pi / 2])),
+                'ncol': int(rng.integers(1, 4)), 'c': c,
                 'sr_form': gens.pick(rng, SR_FORMS), 'exact_zeros': (int(rng.integers(1, 3)) if rng.random() < .12 else 0), 'as_vector': bool(rng.random() < .5), **sub}
     if r < .75:
         sr = float(gens.pick(rng, [1, 100, 512]))
